@@ -150,6 +150,8 @@ class FsSeam(object):
                 if any(c in m for c in 'wax+'):
                     f = seam._site('open:' + m, file)
                     fobj = o['open'](file, mode, *a, **kw)
+                    if f is not None and f.get('flush'):
+                        return FlushFailFile(fobj, f, seam, seam._abs(file))
                     if f is not None:
                         return ShortWriteFile(fobj, f, seam,
                                               seam._abs(file))
@@ -255,6 +257,70 @@ class ShortWriteFile(object):
 
     def __iter__(self):
         return iter(self._f)
+
+    def __getattr__(self, name):
+        return getattr(self._f, name)
+
+
+class FlushFailFile(object):
+    """File proxy for a device that is full when the buffered data is
+    finally written out: write() succeeds (into the buffer), an explicit
+    flush() or close() raises, and a file that is merely dropped is finalised
+    quietly, as the interpreter does.  Nothing reaches the file."""
+
+    def __init__(self, fobj, fault, seam, path):
+        self._f = fobj
+        self._fault = fault
+        self._seam = seam
+        self._path = path
+        self._pending = False
+        self._closed = False
+
+    def write(self, data):
+        self._pending = self._pending or bool(data)
+        return len(data)
+
+    def writelines(self, lines):
+        for l in lines:
+            self.write(l)
+
+    def _fail(self):
+        self._seam.fired.append((self._fault.get('kind', 'flush_error'),
+                                 'flush', self._path))
+        raise FsFaultInjected(self._fault['errno'],
+                              os.strerror(self._fault['errno']), self._path)
+
+    def flush(self):
+        if self._pending:
+            self._pending = False
+            self._fail()
+
+    def close(self):
+        if self._closed:
+            return
+        self._closed = True
+        pending, self._pending = self._pending, False
+        self._f.close()
+        if pending:
+            self._fail()
+
+    def __enter__(self):
+        return self
+
+    def __exit__(self, *exc):
+        self.close()
+        return False
+
+    def __del__(self):
+        try:
+            if not self._closed:
+                self._closed = True
+                if self._pending:
+                    self._seam.fired.append(('flush_error_unreported',
+                                             'finalise', self._path))
+                self._f.close()
+        except Exception:
+            pass
 
     def __getattr__(self, name):
         return getattr(self._f, name)
